@@ -451,7 +451,12 @@ func extractC14(c *Ctx) error {
 	c.P("(* non-test, non-verif call sites of ReassignOrphanedMessages, and of reassignMessageValidator outside it *)")
 	c.P("Definition reassign_production_callers : list string := %s.", CoqStrList(callers))
 	c.Info("reassign_production_callers", callers)
-	return nil
+
+	// ---- second round (c14b.go): who enqueues what, and the retry rules ----
+	if err := c14RetryRules(c); err != nil {
+		return err
+	}
+	return c14EnqueueSites(c)
 }
 
 // c14ReassignCallers scans every non-test, non-verif-hook Go file of the tree (mocks, test utilities
